@@ -126,6 +126,10 @@ def run(ctx: Ctx, tier: str) -> Result:
                     want = {"ctx": ip[2], "tracepoint": ip[1]}
                     ok = all(pair.get(k) == v for k, v in want.items() if k in pair) and set(want) <= set(pair)
         uses_msg = any(isinstance(n, ast.Name) and n.id == ip[0] for n in t.nodes_in(g_, ast.Name))
+        for n in t.nodes_in(g_, ast.BinOp):
+            if isinstance(n.op, ast.Mod) and any(isinstance(x, ast.Name) and x.id == ip[0] for x in ast.walk(n.left)):
+                res.fail(Finding("C16.ROLE", g_.qname, n, g_.loc(n), "`%s` uses the rendered message as (part of) a %%-format string: a `%%` in the template's text or in a value makes "
+                                 "the formatting fail and the message of that hit is lost" % norm(n)[:70]))
         # the processed message is data: it must never be used as a %-format string (a `%` in the template or in a value would
         # make the logging module fail to render it, and the message is lost)
         for c_ in t.calls_in(g_):
@@ -213,6 +217,25 @@ def run(ctx: Ctx, tier: str) -> Result:
         else:
             res.fail(Finding("C16.PIPE", gf.qname, "<eval_watch>", gf.loc(), "get_field evaluates the field %d times through eval_watch (expected once)" % len(ew)))
 
+    # a snapshot keeps every watch result it is given, in order (one per field of the template, also for a repeated expression)
+    esn = p.cls("deep.api.tracepoint.eventsnapshot.EventSnapshot")
+    awr = esn.lookup("add_watch_result")
+    wprop = esn.lookup("watches")
+    if awr is not None and wprop is not None:
+        apps_ = [c for c in t.calls_in(awr) if isinstance(c.func, ast.Attribute) and c.func.attr == "append" and c.args and norm(c.args[0]) == awr.params[1]]
+        wret = [r for r in t.nodes_in(wprop, ast.Return) if r.value is not None]
+        wfield = norm(wret[0].value) if len(wret) == 1 else None
+        tgt_ok = len(apps_) == 1 and wfield is not None and norm(apps_[0].func.value) in (wfield, "self.watches") and not paths.conditions(p, apps_[0], awr) \
+            and isinstance(wret[0].value, ast.Attribute)
+        stores_ = [n for n in t.nodes_in(awr, ast.Subscript) if isinstance(n.ctx, ast.Store)]
+        init_ = esn.lookup("__init__")
+        fresh_list = [v for sf, v, _ in t.field_stores(esn, wfield.split(".", 1)[1]) if sf is init_] if wfield and "." in wfield else []
+        is_list = bool(fresh_list) and all(isinstance(v, ast.List) or (isinstance(v, ast.Call) and norm(v.func) == "list") for v in fresh_list)
+        if tgt_ok and not stores_ and is_list:
+            res.ok("C16.PIPE", {"the snapshot appends every watch result to the list it hands out": norm(apps_[0])})
+        else:
+            res.fail(Finding("C16.PIPE", awr.qname, (stores_ or apps_ or [awr.node])[0], awr.loc(), "the snapshot does not keep every watch result it is given in a list, in order "
+                             "(results of the same expression - a field used twice, a field that is also a watch - replace one another)"))
     # once the expression has a value, the text of the field is the text of that value - also when the value cannot be
     # recorded any more (variable budget used up): only the watch result says `not recorded`
     ewf_ = p.func("deep.processor.context.action_context.ActionContext.eval_watch")
